@@ -185,4 +185,45 @@ theorem run_noHandler (E : Env α β υ ε (RState α β)) (m : Nat) (hc : E.cla
       exact ih
     | shrink p k hlt hdec hg => exact ih
 
+/-! ## Running on: used by the livelock witness -/
+
+/-- If the loop is still running after `k` iterations, a longer run is the `k`-run followed
+    by the run from the state reached. -/
+theorem run_add (E : Env α β υ ε σ) :
+    ∀ (k n : Nat) (w : σ) (s : SState α β) (w' : σ) (s' : SState α β),
+      stateAfter E k w s = some (w', s') →
+      (run E (k + n) w s).evs = (run E k w s).evs ++ (run E n w' s').evs ∧
+      (run E (k + n) w s).out = (run E n w' s').out ∧
+      (run E (k + n) w s).world = (run E n w' s').world := by
+  intro k
+  induction k with
+  | zero =>
+    intro n w s w' s' h
+    simp only [stateAfter, Option.some.injEq, Prod.mk.injEq] at h
+    obtain ⟨rfl, rfl⟩ := h
+    simp [run_zero]
+  | succ k ih =>
+    intro n w s w' s' h
+    rw [show k + 1 + n = (k + n) + 1 by omega, run_succ, run_succ]
+    simp only [stateAfter] at h
+    rcases hstep : step E w s with ⟨w1, evs, res⟩
+    rw [hstep] at h
+    cases res with
+    | stop o => simp at h
+    | next s1 =>
+      simp only at h
+      obtain ⟨h1, h2, h3⟩ := ih n w1 s1 w' s' h
+      simp only [h1, h2, h3, List.append_assoc, and_self]
+
+/-- A state the loop maps to itself: the loop never ends, sending the same message for ever. -/
+theorem run_stuck (E : Env α β υ ε σ) (w : σ) (s : SState α β) (e : Ev α β υ)
+    (h : step E w s = (w, [e], .next s)) :
+    ∀ n, run E n w s = ⟨List.replicate n e, .outOfFuel, w⟩ := by
+  intro n
+  induction n with
+  | zero => rfl
+  | succ n ih =>
+    rw [run_succ, h]
+    simp only [ih, List.replicate_succ, List.singleton_append]
+
 end Nri.SyncChunk
